@@ -404,8 +404,51 @@ THREE_FAIL: dict[str, tuple[dict[str, Any], dict[str, list[str]]]] = {
 }
 
 
+import logging as _logging  # noqa: E402
+
+_logging.getLogger("workflows").setLevel(_logging.CRITICAL)  # (the engine logs every failing step with a traceback)
+
+
+def execute_string_annotations(ex: Execution, which: str) -> tuple[Any, list[Any]]:
+    """factories whose dependencies are declared with postponed (string) annotations - every evaluation of the annotation builds a
+    new Resource descriptor: a genuine cycle must still be reported as one, an acyclic chain must resolve"""
+    from vmc import res_cycle as rc
+
+    rc.CALLS.clear()
+    root = {"cycle2": rc.make_alpha, "cycle1": rc.make_gamma, "chain": rc.make_top}[which]
+    with EngineExec(ex, RunConfig()) as e:
+        async def user(self, ctx, ev, inv, **res):  # noqa: ANN001
+            return StopEvent(result=res["r"].name)
+
+        cls = make_workflow("ResStr", [make_step("user", [StartEvent], [StopEvent], user, extra_params={"r": Annotated[rc.Thing, Resource(root)]})])
+        wf = cls(timeout=None, runtime=MonRuntime(BasicRuntime()))
+        try:
+            hd = wf.run(run_id="r1")
+        except Exception as x:  # noqa: BLE001  (a cycle may already be reported when the workflow is validated)
+            out: tuple[str, Any] = ("exception", x)
+        else:
+            e.consume_stream(hd)
+            e.cfg.stop_when = lambda hh: hd.is_done() and hh.stream_done
+            e.drive()
+            out = task_outcome(hd._result_task)
+        v: list[Any] = []
+        w = {"mode": "string_annotations", "graph": which}
+        is_cycle_err = out[0] == "exception" and "Circular resource dependency" in str(out[1])
+        if which.startswith("cycle"):
+            if not is_cycle_err:
+                v.append(("genuine_cycle_not_reported", w, f"cycle written with string annotations ended with {out[0]} {type(out[1]).__name__}: {str(out[1])[:120]}"))
+        elif is_cycle_err:
+            v.append(("false_cycle_error", {**w, "resolutions_overlapped": False, "named_resource_being_resolved_elsewhere": False}, f"acyclic chain: {out[1]}"))
+        elif out[0] != "result":
+            v.append(("run_failed", w, f"acyclic chain written with string annotations ended with {out}"))
+        return {"outcome": out[0], "_metrics": {"max_concurrency": 1}}, v
+
+
 def programs(tier: str) -> list[Program]:
     ps = []
+    for which in ("cycle2", "cycle1", "chain"):
+        ps.append(Program(f"string_annotations/{which}", {"graph": which, "mode": "string_annotations"},
+                          (lambda ex, which=which: execute_string_annotations(ex, which)), min_concurrency=0))
     for gname, (graph, inject) in THREE_FAIL.items():
         ps.append(Program(f"{gname}/three_fail", {"graph": gname, "mode": "three_fail"},
                           (lambda ex, graph=graph, inject=inject: execute(ex, graph, inject, "three_fail", False)),
